@@ -44,6 +44,7 @@ type HMACKey = MerkleHash;
 // shard_format.rs:23 (= 48, const_assert!ed there); Verus consts cannot call size_of
 const MDB_FILE_INFO_ENTRY_SIZE: usize = 48;
 global size_of FileDataSequenceHeader == 48;
+global size_of MDBShardFileHeader == 48;
 global size_of CASChunkSequenceHeader == 48;
 global size_of CASChunkSequenceEntry == 48;
 pub assume_specification<T, A: std::alloc::Allocator + Clone> [<Arc<[T], A> as From<Vec<T, A>>>::from] (v: Vec<T, A>) -> (r: Arc<[T], A>)
@@ -798,6 +799,54 @@ impl MDBMinimalShard {
             lemma_file_pos_ge(0, min_files(*self), min_files(*self).len() as int);
             assert(cas_hdr_at(self.data@, cas_pos(cis, cs, k)) == cs[k]);
         }
+//@ end
+}
+
+// ---- MDBMinimalShard::serialize -----------------------------------------------------------------------------------------
+// the footer written for `m`: offsets point at the two sections as they lie in the output (48-byte shard header first), there are
+// no lookup tables (all three counts 0, all three table offsets = end of the CAS section = footer offset)
+spec fn min_footer_ok(m: MDBMinimalShard, f: MDBShardFileFooter) -> bool {
+    let end = 48 + m.data@.len();
+    &&& f.file_info_offset == 48 && f.cas_info_offset == m.cas_info_start + 48
+    &&& f.file_lookup_offset == end && f.cas_lookup_offset == end && f.chunk_lookup_offset == end && f.footer_offset == end
+    &&& f.file_lookup_num_entry == 0 && f.cas_lookup_num_entry == 0 && f.chunk_lookup_num_entry == 0
+}
+spec fn serialize_post(m: MDBMinimalShard, w0: Seq<u8>, w1: Seq<u8>, n: int) -> bool {
+    n == 48 + m.data@.len() && exists|f: MDBShardFileFooter| min_footer_ok(m, f) && w1 == w0 + enc_shard_hdr() + m.data@ + #[trigger] enc_footer(f)
+}
+spec fn u64v(x: u64) -> int { x as int }
+impl MDBMinimalShard {
+//@ extract mdb_shard/src/streaming_shard.rs in `impl MDBMinimalShard` fn serialize
+//@ ret res
+//@ subst `<W: Write>` => `` :: R11 the instance W = Vec<u8>
+//@ subst `writer: &mut W` => `writer: &mut Vec<u8>` :: R11 the instance W = Vec<u8>
+//@ subst `copy(&mut Cursor::new(&self.data), writer)?` => `vx_copy_all(&self.data, writer)?` :: R7 outline of io::copy from a Cursor over the buffer
+//@ contract
+        requires min_wf(*self),
+        ensures
+            // shard header, the buffer (= file section, CAS section) verbatim, footer whose offsets point at those sections
+            res matches Ok(n) ==> /*@C09*/ serialize_post(*self, old(writer)@, final(writer)@, n as int),
+//@ body-start
+        let ghost w0 = writer@; let ghost fs = min_files(*self); let ghost cs = min_cas(*self); let ghost cis = self.cas_info_start as int;
+        proof { lemma_file_pos_ge(0, fs, fs.len() as int); lemma_cas_pos_ge(cis, cs, cs.len() as int); }
+//@ loop 1
+            invariant
+                min_wf(*self), fs == min_files(*self), i <= fs.len(), fs.len() == self.file_offsets@.len(),
+                u64v(materialized_bytes) <= 0xFFFF_FFFF * file_pos(0, fs, i as int), file_pos(0, fs, fs.len() as int) <= u32::MAX,
+//@ loop 2
+                invariant
+                    min_wf(*self), fs == min_files(*self), i < fs.len(), fview_wf(file_info), file_info.header == fs[i as int],
+                    j <= file_info.header.num_entries, file_pos(0, fs, i as int) >= 0, file_pos(0, fs, i as int) + file_info.header.num_entries <= u32::MAX,
+                    u64v(materialized_bytes) <= 0xFFFF_FFFF * (file_pos(0, fs, i as int) + j), file_pos(0, fs, fs.len() as int) <= u32::MAX,
+//@ before `let file_info = self.file(i);`
+            proof { lemma_file_pos_step(0, fs, i as int); lemma_file_pos_mono(0, fs, i as int + 1, fs.len() as int); lemma_file_pos_ge(0, fs, i as int); }
+//@ loop 3
+            invariant
+                min_wf(*self), cs == min_cas(*self), cis == self.cas_info_start, i <= cs.len(), cs.len() == self.cas_offsets@.len(),
+                u64v(stored_bytes_on_disk) <= 0xFFFF_FFFF * (cas_pos(cis, cs, i as int) - cis), u64v(stored_bytes) <= 0xFFFF_FFFF * (cas_pos(cis, cs, i as int) - cis),
+                cas_pos(cis, cs, cs.len() as int) <= u32::MAX, cis >= 0,
+//@ before `let cas_info = self.cas(i);`
+            proof { lemma_cas_pos_step(cis, cs, i as int); lemma_cas_pos_mono(cis, cs, i as int + 1, cs.len() as int); lemma_cas_pos_ge(cis, cs, i as int); }
 //@ end
 }
 
